@@ -58,3 +58,50 @@ package proto
 //@   ensures uvAt(arrayof(b.Buf), p0, len(p.Key)) && forall j in 0..len(p.Key) :: arrayof(b.Buf)[p0 + uvsize(len(p.Key)) + j] == p.Key[j] {Key}
 //@   ensures arrayof(b.Buf)[p1] == 2 {custom-flag}
 //@   ensures uvAt(arrayof(b.Buf), p2, len(p.Value)) && forall j in 0..len(p.Value) :: arrayof(b.Buf)[p2 + uvsize(len(p.Value)) + j] == p.Value[j] {Value}
+
+// ---------------------------------------------------------------------------
+// BlockInfo (src/Core/BlockInfo.cpp): field pairs  1 -> is_overflows (1 byte), 2 -> bucket_num
+// (int32 little endian), 0 ends the list.  The encoder always writes the canonical sequence
+// 01 <bool> 02 <i32> 00 (8 bytes); the decoder accepts the pairs in any order.
+
+//@ contract (i BlockInfo) Encode(b) props(C17,C02)
+//@   requires b != nil
+//@   modifies b.Buf
+//@   let p = offset(b.Buf) + old(len(b.Buf))
+//@   ensures appendOnly(b, 8) {eight-bytes}
+//@   ensures uvStable(b) {varint-images-preserved}
+//@   ensures uvAt(arrayof(b.Buf), p, 1) && arrayof(b.Buf)[p + 1] == ite(i.Overflows, 1, 0) {overflows-pair}
+//@   ensures uvAt(arrayof(b.Buf), p + 2, 2) && arrayof(b.Buf)[p + 3] == byte32(u32(i32(i.BucketNum)), 0) && arrayof(b.Buf)[p + 4] == byte32(u32(i32(i.BucketNum)), 1) && arrayof(b.Buf)[p + 5] == byte32(u32(i32(i.BucketNum)), 2) && arrayof(b.Buf)[p + 6] == byte32(u32(i32(i.BucketNum)), 3) {bucket-pair}
+//@   ensures uvAt(arrayof(b.Buf), p + 7, 0) {end-marker}
+
+//@ spec func biCanon(r Val, p Int) Bool = uvAt(r.in, p, 1) && r.in[p + 1] <= 1 && uvAt(r.in, p + 2, 2) && uvAt(r.in, p + 7, 0) && p + 8 <= r.end && r.reliable
+
+//@ contract (i *BlockInfo) Decode(r) (err) props(C06,C07,C08,C17)
+//@   requires i != nil && r != nil
+//@   modifies *i, r.pos, r.failed, r.b.Buf
+//@   ensures err == nil ==> r.failed == old(r.failed) [C07,C17]
+//@   ensures old(r.pos) <= r.pos && r.pos <= r.end [C06,C17] {monotone}
+//@   ensures biCanon(r, old(r.pos)) && !old(r.failed) ==> err == nil && r.pos == old(r.pos) + 8 [C17] {canonical-sequence-accepted-and-consumed-exactly}
+//@   ensures biCanon(r, old(r.pos)) && !old(r.failed) ==> i.Overflows == (r.in[old(r.pos) + 1] == 1) && i.BucketNum == i32(unle32(r.in[old(r.pos) + 3], r.in[old(r.pos) + 4], r.in[old(r.pos) + 5], r.in[old(r.pos) + 6])) [C17] {canonical-sequence-values}
+//@ loop 0 ()
+//@   modifies *i, r.pos, r.failed, r.b.Buf
+//@   invariant r.failed == old(r.failed) && old(r.pos) <= r.pos && r.pos <= r.end
+//@   invariant biCanon(r, old(r.pos)) && !old(r.failed) ==> r.pos == old(r.pos) || r.pos == old(r.pos) + 2 || r.pos == old(r.pos) + 7
+//@   invariant biCanon(r, old(r.pos)) && !old(r.failed) && r.pos >= old(r.pos) + 2 ==> i.Overflows == (r.in[old(r.pos) + 1] == 1)
+//@   invariant biCanon(r, old(r.pos)) && !old(r.failed) && r.pos >= old(r.pos) + 7 ==> i.BucketNum == i32(unle32(r.in[old(r.pos) + 3], r.in[old(r.pos) + 4], r.in[old(r.pos) + 5], r.in[old(r.pos) + 6]))
+
+//@ contract lemmaBlockInfoRoundTrip(x) (y, r, err) props(C17)
+//@   requires -2147483648 <= x.BucketNum && x.BucketNum <= 2147483647
+//@   ensures err == nil {decodes}
+//@   ensures r.pos == r.end {consumes-exactly-the-encoded-bytes}
+//@   ensures y.Overflows == x.Overflows && y.BucketNum == x.BucketNum {same-info}
+
+//@ -- the block header: optional BlockInfo (from revision 51903), then columns and rows as varints
+//@ contract (b Block) EncodeAware(buf, version) props(C17,C02)
+//@   requires buf != nil
+//@   modifies buf.Buf
+//@   let p = offset(buf.Buf) + old(len(buf.Buf)) + ite(version >= 51903, 8, 0)
+//@   ensures len(buf.Buf) == old(len(buf.Buf)) + ite(version >= 51903, 8, 0) + uvsize(u64(b.Columns)) + uvsize(u64(b.Rows)) && forall k in 0..old(len(buf.Buf)) :: buf.Buf[k] == old(buf.Buf[k]) {length}
+//@   ensures uvAt(arrayof(buf.Buf), p, u64(b.Columns)) {Columns}
+//@   ensures uvAt(arrayof(buf.Buf), p + uvsize(u64(b.Columns)), u64(b.Rows)) {Rows}
+//@   ensures version >= 51903 ==> uvAt(arrayof(buf.Buf), offset(buf.Buf) + old(len(buf.Buf)), 1) && uvAt(arrayof(buf.Buf), offset(buf.Buf) + old(len(buf.Buf)) + 7, 0) {info-present-from-51903}
